@@ -173,6 +173,7 @@ func main() {
 
 	// wall-clock watchdog: a backstop for loops in code without ticks
 	var caseIdx atomic.Int64
+	var caseStart atomic.Int64
 	limit := 60.0
 	memLimit := uint64(3) << 30
 	if v := opts["memlimit_mb"]; v != "" {
@@ -194,6 +195,14 @@ func main() {
 				fmt.Fprintf(os.Stderr, "WATCHDOG-MEMORY case=%d heap %d MiB exceeds the limit; executing: %v\n%s\n", caseIdx.Load(), ms.HeapAlloc>>20, zz.CurrentDesc.Load(), buf[:n])
 				os.Exit(5)
 			}
+			// backstop of the backstop: a whole case (generation, minimisation included) that
+			// takes more than 20x the per-execution limit
+			if cs := caseStart.Load(); cs != 0 && time.Since(time.Unix(0, cs)).Seconds() > 20*limit {
+				buf := make([]byte, 1<<20)
+				n := runtime.Stack(buf, true)
+				fmt.Fprintf(os.Stderr, "WATCHDOG case=%d the whole case exceeded %.0fs wall clock; last execution: %v\n%s\n", caseIdx.Load(), 20*limit, zz.CurrentDesc.Load(), buf[:n])
+				os.Exit(4)
+			}
 			st := zz.ExecStart.Load()
 			if st == 0 {
 				continue
@@ -210,6 +219,8 @@ func main() {
 	runOne := func(idx int) {
 		progress(idx)
 		caseIdx.Store(int64(idx))
+		caseStart.Store(time.Now().UnixNano())
+		defer caseStart.Store(0)
 		cr := p.RunCase(ctx, zz.CaseSeed(*seed, *prop, idx), idx)
 		ctx.Stats.Cases++
 		for _, f := range cr.Nontrivial {
